@@ -16,10 +16,12 @@ Theorem C19_greedy_complete : forall r, HasGreedyDot r -> greedy r = true.
 Proof. exact greedy_complete. Qed.
 Theorem C19_greedy_sound : forall r, greedy r = true -> HasGreedyDot r.
 Proof. exact greedy_sound. Qed.
-(* regression lemmas: the code as it was (findings F6, F7, F8) *)
+(* regression lemmas: the code as it was (findings F6, F7, F8, F9) *)
 Theorem C19_old_panics_on_empty_tuple : run false [EVariant (Tuple 0)] false = Panicked.
 Proof. exact old_panics_on_empty_tuple. Qed.
 Theorem C19_old_panics_on_duplicate_callback : run false [EDupCallback false] false = Panicked.
 Proof. exact old_panics_on_duplicate_callback. Qed.
 Theorem C19_greedy_old_refuted : exists r, HasGreedyDot r /\ greedy_old r = false.
 Proof. exact greedy_old_refuted. Qed.
+Theorem C19_greedy_nocap_refuted : exists r, HasGreedyDot r /\ greedy_nocap r = false.
+Proof. exact greedy_nocap_refuted. Qed.
